@@ -57,6 +57,11 @@ def chosen(rnd, tier):
             q = b'SSH-2.0-Decoy_1.0 quoted'
             line[decoy_at:decoy_at + len(q)] = q
         cases.append({'others': [list(bytes(line))], 'parts': {'major': 2, 'minor': 0, 'software': list(b'OpenSSH_9.%d' % k), 'comments': list(b'')}, 'eol': 'crlf' if k % 2 else 'lf'})
+    # lines that begin like an identification string and are none (no digit.digit version, something else than '-' or the end of the line
+    # behind the version): they are other lines - reported as header text, never taken for the banner, never dropped
+    for k, oth in enumerate(([b'SSH-server maintenance at 5pm'], [b'SSH-2.0x legacy gateway'], [b'SSH-22.0-NotABanner', b'hello'], [b'SSH-2.0_underscore'],
+                             [b'SSH-', b'SSH-2', b'SSH-2.'], [b'SSH-x.y-z', b'ssh-2.0-lowercase'])):
+        cases.append({'others': [list(o) for o in oth], 'parts': {'major': 2, 'minor': 0, 'software': list(b'OpenSSH_9.%d' % k), 'comments': list(b'')}, 'eol': 'crlf' if k % 2 else 'lf'})
     # control characters that text-level whitespace stripping would swallow (0x1c..0x1f) at the very end of the identification string: they
     # are part of the line, shown as '?' and make the banner non-conforming like anywhere else
     for k, ctl in enumerate((0x1c, 0x1d, 0x1e, 0x1f)):
@@ -189,6 +194,7 @@ def run(tier):
     pick = rnd.sample(with_hdr, min(len(with_hdr), ncli // 2)) + rnd.sample(nonascii, min(len(nonascii), ncli // 6))
     pick += rnd.sample(rest, min(len(rest), ncli - len(pick)))
     cli_leg(ck, pick)
+    client_cli_leg(ck, pick)
     ck.sample({'wire_text': bs(exps[7]['wire']).decode('latin-1'), 'expected_software': bs(exps[7]['banner']['software']).decode('latin-1'),
                'expected_header': [bs(h).decode('latin-1') for h in exps[7]['header']]})
     ck.cov['rule'] = ('TLC enumerates the grammar universe {1.5,1.99,2.0,2.1} x 11 software tokens x 5 comment forms x {CRLF,LF} x 0..2 header lines over 6 x injected '
@@ -203,6 +209,39 @@ def _kind(e):
     if not e['banner']['valid']:
         return 'non-ascii'
     return 'plain'
+
+
+def client_cli_leg(ck, cli):
+    """The same identification exchanges sent by a connecting client to a client audit (-c): banner and header text are reported as
+    for a server."""
+    pick = [x for x in cli if x[0]['header']][:40] + [x for x in cli if not x[0]['header']][:10]
+    scs = []
+    for e, replay in pick:
+        wire_b = bs(e['wire'])
+        lines = wire_b.split(b'\n')
+        eol = b'\r\n' if lines[0].endswith(b'\r') or (len(lines) > 1 and wire_b.endswith(b'\r\n')) else b'\n'
+        body = [l.rstrip(b'\r') if eol == b'\r\n' else l for l in lines[:-1]]
+        cl = {'banner': body[-1], 'prebanner': body[:-1], 'eol': eol,
+              'kexinit': {'kex': ['curve25519-sha256'], 'key': ['ssh-ed25519'], 'enc': ['aes128-ctr'], 'mac': ['hmac-sha2-256'], 'comp': ['none']}}
+        scs.append({'argv': ['-n', '-c', '-p', '2222', '-t', '5'], 'clients': [cl]})
+    for (e, replay), sc, r in zip(pick, scs, runner.run_many(scs)):
+        ck.evaluated()
+        if r.get('harness_error') or r.get('hang'):
+            raise common.Machinery('client audit run failed: %r' % (r.get('harness_error') or 'hang'))
+        rp = dict(replay, exit=r['exit'], stdout=r['stdout'][-1500:], role='client')
+        want = replay['expected']
+        if r['exit'] not in (0, 2, 3):
+            ck.violation('cli-banner-not-audited role=client exit=%s' % r['exit'], 'client audit of a client with this identification exchange ends with status %s' % r['exit'], rp)
+            continue
+        tx = report.parse_text(r['stdout'])
+        hdr = [h.rstrip() for h in tx.get('header', [])]
+        if tx['gen'].get('banner') != want['rendered']:
+            ck.violation('cli-banner view=text role=client', '(gen) banner: %r, expected %r' % (tx['gen'].get('banner'), want['rendered']), rp)
+        elif hdr != want['header']:
+            ck.violation('cli-header view=text role=client', '(gen) header: %r, expected %r' % (hdr, want['header']), rp)
+        else:
+            ck.cov['traces_validated_against_impl'] += 1
+            ck.nontrivial(('client-cli', bs(e['wire'])))
 
 
 def cli_leg(ck, cli):
